@@ -11,7 +11,10 @@ ID = 'C04'
 LEAN_MODULES = ['Proofs.C04']
 REQUIRED = ['C04.run_spec', 'C04.spec_unique', 'C04.iter_succ', 'C04.exit_within_limit', 'C04.stopped_full_mean', 'C04.fixed_count',
             'C04.fixed_never_convergeError', 'C04.convergeError_iff', 'C04.flag_false_iff', 'C04.energy_flag',
-            'C04.result_length']
+            'C04.result_length', 'C04.budget_pos_iff', 'C04.fixed_zero_iters_model_convergeError', 'C04.iter_eq_iterate',
+            'C04.stopped_indep_of_rule', 'C04.sdStop_iff', 'C04.rillingExceeds_iff_ratio', 'C04.rillingStop_iff',
+            'C04.rillingStop_iff_fraction', 'C04.fixedStop_iff', 'C04.stopTest_dispatch', 'C04.energyFlag_false_iff',
+            'C04.flag_iff_energy']
 TRUSTED = ['envelope values are an oracle: the table handed to the model holds the upper/lower envelopes returned by the real '
            'public emd.sift.interp_envelope on the float64 iterates h_{k+1} = h_k - step*mean (computed by the harness); the model '
            'recomputes every iterate exactly and rejects the table (oracle-desync) when it drifts by more than 1e-9*max(1,|x|)',
